@@ -399,8 +399,33 @@ _asn1f_check_if_tag_must_be_explicit(arg_t *arg, asn1p_expr_t *v) {
 /*
  * Check that the tags are distinct.
  */
+static int _asn1f_compare_tags_impl(arg_t *arg, asn1p_expr_t *a, asn1p_expr_t *b);
+
 static int
 _asn1f_compare_tags(arg_t *arg, asn1p_expr_t *a, asn1p_expr_t *b) {
+	static int depth;
+	int ret;
+
+	/*
+	 * A CHOICE which contains itself without a tag in between,
+	 * C ::= CHOICE { a INTEGER, rec C }, is looked through forever.
+	 */
+	if(depth > 100) {
+		FATAL("Untagged CHOICE refers to itself while checking "
+			"tags of component \"%s\" at line %d",
+			a->Identifier, a->_lineno);
+		return -1;
+	}
+
+	depth++;
+	ret = _asn1f_compare_tags_impl(arg, a, b);
+	depth--;
+
+	return ret;
+}
+
+static int
+_asn1f_compare_tags_impl(arg_t *arg, asn1p_expr_t *a, asn1p_expr_t *b) {
 	struct asn1p_type_tag_s ta, tb;
 	int ra, rb;
 	int ret;
